@@ -431,6 +431,7 @@ pub fn build(d: &mut Dna, cfg: &GenCfg) -> Built {
             let mut default_expect: Option<String> = None;
             let mut default_slot = false;
             let mut deref_unwrapped: Option<FTy> = None;
+            let mut ignore_with_method = false;
             let union_ = kind == Kind::Union;
 
             if want_unsized && fi + 1 == nfields {
@@ -439,8 +440,9 @@ pub fn build(d: &mut Dna, cfg: &GenCfg) -> Built {
             // ---- Deref / DerefMut / Into designation decides the type
             if has(Tr::Deref) && (fi == deref_pos || fi == deref_mut_pos) {
                 let mut t = deref_ty.clone().unwrap();
-                if fi == deref_pos && fi == deref_mut_pos && gens.lifetimes.len() > 0 && d.chance(25) {
-                    let lt = gens.lifetimes[0].0.clone();
+                if fi == deref_pos && fi == deref_mut_pos && d.chance(25) {
+                    // a reference field borrows for one of the type's lifetimes, or for 'static in a type without any
+                    let lt = gens.lifetimes.first().map(|l| l.0.clone()).unwrap_or_else(|| "static".to_string());
                     // `&T`, `&&T` and `&mut T` fields are looked through; DerefMut needs the mutable one
                     let k = if has(Tr::DerefMut) { Wrapk::RefMut } else { [Wrapk::Ref, Wrapk::Ref, Wrapk::RefRef, Wrapk::RefMut][d.pick(4)] };
                     if let Some(r) = wrap(k, &t, Some(&lt)) {
@@ -514,6 +516,12 @@ pub fn build(d: &mut Dna, cfg: &GenCfg) -> Built {
                         let mut ps: Vec<(FParam, u8)> = Vec::new();
                         if cfg.ignore && d.chance(cfg.attr_pct / 2) {
                             ps.push((FParam::Ignore(true), d.byte()));
+                            // `ignore` next to a method: the field stays ignored
+                            if cfg.method && d.chance(20) {
+                                ps.push((FParam::Method(if d.chance(50) { "m_fmt_tag" } else { "m_fmt_alt" }.into()), d.byte()));
+                                want_key = true;
+                                ignore_with_method = true;
+                            }
                         } else {
                             if cfg.method && d.chance(cfg.attr_pct / 2) {
                                 ps.push((FParam::Method(if d.chance(50) { "m_fmt_tag" } else { "m_fmt_alt" }.into()), d.byte()));
@@ -547,6 +555,20 @@ pub fn build(d: &mut Dna, cfg: &GenCfg) -> Built {
                         let mut ps: Vec<(FParam, u8)> = Vec::new();
                         if cfg.ignore && d.chance(cfg.attr_pct / 2) {
                             ps.push((FParam::Ignore(true), d.byte()));
+                            if cfg.method && d.chance(20) {
+                                let m = match (t, d.chance(50)) {
+                                    (Tr::PartialEq, false) => "m_eq_le",
+                                    (Tr::PartialEq, true) => "m_eq_mod",
+                                    (_, false) => "m_hash_tag",
+                                    (_, true) => "m_hash_mod",
+                                };
+                                ps.push((FParam::Method(m.into()), d.byte()));
+                                want_key = true;
+                                ignore_with_method = true;
+                                if d.chance(50) {
+                                    ps.reverse();
+                                }
+                            }
                         } else if cfg.method && d.chance(cfg.attr_pct / 2) {
                             let m = match (t, d.chance(50)) {
                                 (Tr::PartialEq, false) => "m_eq_le",
@@ -577,6 +599,21 @@ pub fn build(d: &mut Dna, cfg: &GenCfg) -> Built {
                         let mut ps: Vec<(FParam, u8)> = Vec::new();
                         if cfg.ignore && d.chance(cfg.attr_pct / 2) {
                             ps.push((FParam::Ignore(true), d.byte()));
+                            if cfg.method && d.chance(20) {
+                                let m = match (t, d.chance(50)) {
+                                    (Tr::PartialOrd, false) => "m_pcmp_rev",
+                                    (Tr::PartialOrd, true) => "m_pcmp_none",
+                                    (_, false) => "m_cmp_rev",
+                                    (_, true) => "m_cmp_mod",
+                                };
+                                ps.push((FParam::Method(m.into()), d.byte()));
+                                want_key = true;
+                                ignore_with_method = true;
+                            }
+                            // a rank on an ignored field is accepted and means nothing
+                            if cfg.rank && d.chance(15) {
+                                ps.push((FParam::Rank(0), d.byte()));
+                            }
                         } else {
                             if cfg.method && d.chance(cfg.attr_pct / 2) {
                                 let m = match (t, d.chance(50)) {
@@ -794,6 +831,9 @@ pub fn build(d: &mut Dna, cfg: &GenCfg) -> Built {
                 attrs.retain(|a| a.tr != Tr::Clone);
             }
             // methods based on Key need `P: Key` on generic parameters
+            if ignore_with_method {
+                classes.push("ignore_together_with_method");
+            }
             fields.push(FieldSpec { name, ty, attrs, split: d.byte(), raw: vec![], default_expect, noise: vec![] });
         }
 
